@@ -58,7 +58,7 @@ RULE = (
     "<=3 x random parameters (multiples of 6).  (c) complete bases of 1-3 sites (<=4 modes), "
     "symmetric term lists, state tensors of every total charge with an optional extra leg; "
     "non-trivial: the sign matrix D is not the identity and the result is non-zero."
-)
+        '; coefficients as python complex, np.complex128 and np.complex64; exact power-of-two scaling of every coefficient down to 2^-200 (small matrix elements are neither rounded away nor pruned)')
 ANCHORS = {
     "fermionic_local_operators.py": [
         "FermionicOperator",
